@@ -428,7 +428,7 @@ func (c *Client) Auth(a sasl.Client) error {
 //
 // If server returns an error, it will be of type *SMTPError.
 func (c *Client) Mail(from string, opts *MailOptions) error {
-	if err := validateLine(from); err != nil {
+	if err := validateAddr(from); err != nil {
 		return err
 	}
 	if err := c.hello(); err != nil {
@@ -503,7 +503,7 @@ func (c *Client) Mail(from string, opts *MailOptions) error {
 //
 // If server returns an error, it will be of type *SMTPError.
 func (c *Client) Rcpt(to string, opts *RcptOptions) error {
-	if err := validateLine(to); err != nil {
+	if err := validateAddr(to); err != nil {
 		return err
 	}
 
@@ -905,6 +905,28 @@ func (cdw clientDebugWriter) Write(b []byte) (int, error) {
 		return len(b), nil
 	}
 	return cdw.c.DebugWriter.Write(b)
+}
+
+// validateAddr checks that addr can be sent between the angle brackets of a
+// MAIL or RCPT command: it must not contain CR or LF, and an angle bracket may
+// only occur inside a quoted string. A bare '>' would end the path early and
+// turn the rest of addr into ESMTP parameters.
+func validateAddr(addr string) error {
+	if err := validateLine(addr); err != nil {
+		return err
+	}
+	quoted := false
+	for i := 0; i < len(addr); i++ {
+		switch c := addr[i]; {
+		case quoted && c == '\\':
+			i++
+		case c == '"':
+			quoted = !quoted
+		case !quoted && (c == '<' || c == '>'):
+			return errors.New("smtp: an address must not contain '<' or '>' outside a quoted string")
+		}
+	}
+	return nil
 }
 
 // validateLine checks to see if a line has CR or LF.
